@@ -19,3 +19,19 @@ mod common;
 pub use crate::config::{Committee, Parameters};
 pub use crate::consensus::Consensus;
 pub use crate::messages::{Block, QC, TC};
+
+/// Re-exports for the verification harness (only with `--cfg hotstuff_verif`).
+#[cfg(hotstuff_verif)]
+pub mod verif {
+    pub use crate::aggregator::Aggregator;
+    pub use crate::config::{Authority, Stake};
+    pub use crate::consensus::{ConsensusMessage, Round};
+    pub use crate::core::Core;
+    pub use crate::error::{ConsensusError, ConsensusResult};
+    pub use crate::helper::Helper;
+    pub use crate::leader::LeaderElector;
+    pub use crate::mempool::MempoolDriver;
+    pub use crate::messages::{Timeout, Vote};
+    pub use crate::proposer::{Proposer, ProposerMessage};
+    pub use crate::synchronizer::Synchronizer;
+}
